@@ -148,6 +148,29 @@ def run(R):
     R.dist["backup scenarios"] = dist
     import ties
     ties.t8(R, "T8-driver", [dict(tree=j["tree"], argv=j["argv"]) for j in jobs[:min(n_tied, 200 if quick else 3000)]])
+    # the cases the end-to-end theorems C18_run_delete_backup / C18_run_create_backup state or exclude by hypothesis: a creating, a removing
+    # and a changing patch under -b (and -z) with nothing / a file / a link to a file / a dangling link / a directory at the backup name.
+    # Model and program must agree on all of them (exit status, whole final tree, events) - also where the theorems say nothing.
+    A12 = gen.render(a, "keep")
+    mod = a[:5] + [(b"changed", "L")] + a[6:]
+    texts = {"create": (None, emit.unified_text(gen.make_hunks([], a, 3), b"/dev/null", b"f", b"", b"")),
+             "delete": (A12, emit.unified_text(gen.make_hunks(a, [], 3), b"f", b"/dev/null", b"", b"")),
+             "change": (A12, emit.unified_text(gen.make_hunks(a, mod, 2), b"f", b"f"))}
+    fixed = []
+    for opts in ([b"-b"], [b"-b", b"-z", b".bak"], [b"-b", b"--dry-run"]):
+        bn = backup_name(opts, b"f")
+        for kind, (content, text) in texts.items():
+            for at in ("nothing", "file", "link-to-file", "dangling-link", "directory"):
+                t = {b"p.diff": ("f", text, 0o644), b"other": ("f", b"kept\n", 0o600)}
+                if content is not None:
+                    t[b"f"] = ("f", content, 0o755 if at == "file" else 0o644)
+                if at == "file": t[bn] = ("f", b"an older backup\n", 0o644)
+                elif at == "link-to-file": t[bn] = ("l", b"other")
+                elif at == "dangling-link": t[bn] = ("l", b"nowhere")
+                elif at == "directory": t[bn] = ("d", 0o755)
+                fixed.append(dict(tree=box.Tree(t), argv=opts + [b"-i", b"p.diff"]))
+    ties.t8(R, "T8-backup-name-taken", fixed)
+    R.dist["backup name taken (fixed, tied)"] = len(fixed)
 
 
 RULE = ("a 12-line file patched by 1-3 sections for the same file (exact, offset, fuzzy, failing, already applied, creating, deleting) x all combinations of "
